@@ -41,7 +41,7 @@ Flds == {-6, -3, 0}       \* uT, mT, T
 Curs == {-9, -6, -3}      \* nA, uA, mA
 UnitSystems == [l : Lens, f : Flds, c : Curs]
 
-Basis == {"ten", "XI", "LAM", "D", "B", "I", "S", "L", "AR", "Phi0", "mu0", "pi", "two"}
+Basis == {"ten", "XI", "LAM", "D", "SIG", "B", "I", "S", "L", "AR", "Phi0", "mu0", "pi", "two"}
 One == [k \in Basis |-> 0]
 Gen(k, n) == [One EXCEPT ![k] = n]
 Mul(a, b) == [k \in Basis |-> a[k] + b[k]]
@@ -56,6 +56,7 @@ Prod(s) == IF Len(s) = 0 THEN One ELSE Mul(Head(s), Prod(Tail(s)))
 xiN(u)  == Mul(Gen("XI", 1), Ten(-u.l))
 lamN(u) == Mul(Gen("LAM", 1), Ten(-u.l))
 dN(u)   == Mul(Gen("D", 1), Ten(-u.l))
+sigN(u) == Mul(Gen("SIG", 1), Ten(u.l))                \* conductivity typed in siemens / length_units (SIG is in S/m)
 BN(u)   == Mul(Gen("B", 1), Ten(-u.f))
 curN(u)   == Mul(Gen("I", 1), Ten(-u.c))
 
@@ -64,6 +65,7 @@ xiQ(u)  == Mul(xiN(u), Ten(u.l))                       \* coherence_length = num
 lamQ(u) == Mul(lamN(u), Ten(u.l))
 dQ(u)   == Mul(dN(u), Ten(u.l))
 LambdaQ(u) == Div(Pow(lamQ(u), 2), dQ(u))              \* Lambda = lambda^2 / d
+sigQ(u) == Mul(sigN(u), Ten(-u.l))                     \* conductivity = number * siemens / length_units
 Bc2(u) == Prod(<<Gen("Phi0", 1), Gen("two", -1), Gen("pi", -1), Pow(xiQ(u), -2)>>)      \* Phi_0 / (2 pi xi^2)
 A0(u)  == Mul(Bc2(u), xiQ(u))                                                          \* xi Bc2
 K0(u)  == Prod(<<Gen("two", 2), xiQ(u), Bc2(u), Gen("mu0", -1), Inv(LambdaQ(u))>>)     \* 4 xi Bc2 / (mu0 Lambda)
@@ -109,9 +111,13 @@ Ref == [ DimA      |-> Prod(<<Gen("B", 1), Gen("S", 1), Gen("XI", 1), Gen("two",
          PhysOut   |-> K0Phys ]
 Dimless(u) == [DimA |-> DimA(u), DimFlux |-> DimFlux(u), DimJ |-> DimJ(u), DimScreen |-> DimScreen(u), PhysOut |-> PhysOut(u)]
 \* the observable scales of one solver (what the binding measures), by name
-Scales(u) == [AScale |-> AScale(u), CurScaled |-> CurScaled(u), ScreenW |-> ScreenW(u), K0 |-> K0(u), K0OutN |-> K0OutN(u),
+\* tau0 = mu0 sigma lambda^2,  V0 = xi (K0 / d) / sigma                                   (device.py:170-200)
+Tau0(u) == Prod(<<Gen("mu0", 1), sigQ(u), Pow(lamQ(u), 2)>>)
+V0(u)   == Prod(<<xiQ(u), K0(u), Inv(dQ(u)), Inv(sigQ(u))>>)
+Scales(u) == [xi |-> xiQ(u), lambda |-> lamQ(u), Lambda |-> LambdaQ(u), A0 |-> A0(u), tau0 |-> Tau0(u), V0 |-> V0(u),
+              AScale |-> AScale(u), CurScaled |-> CurScaled(u), ScreenW |-> ScreenW(u), K0 |-> K0(u), K0OutN |-> K0OutN(u),
               Bc2 |-> Bc2(u), DimFlux |-> DimFlux(u), DimJ |-> DimJ(u)]
-ScaleNames == {"AScale", "CurScaled", "ScreenW", "K0", "K0OutN", "Bc2", "DimFlux", "DimJ"}
+ScaleNames == {"xi", "lambda", "Lambda", "A0", "tau0", "V0", "AScale", "CurScaled", "ScreenW", "K0", "K0OutN", "Bc2", "DimFlux", "DimJ"}
 
 (* ------------------------------------------------------------------ integer triangles, symmetric gauge at edge centres *)
 Pts == (0..TriN) \X (0..TriN)
